@@ -25,7 +25,8 @@ def shard(shard_no, nshards, seed, tier, extra):
     for profile in PROFILES:
         d = common.Driver(profile, shim=False)
         reqs = [
-            ("ds-exh", {"op": "ds", "target": "ds", "mode": "exhaustive", "universe": 4, "len": p["ds_len"],
+            # every history over the full operation set (payloads: one tag, two tags, the identity) up to length 4 ...
+            ("ds-exh", {"op": "ds", "target": "ds", "mode": "exhaustive", "universe": 4, "len": 4,
                         "shard": shard_no, "shards": nshards}),
             ("ds-rand", {"op": "ds", "target": "ds", "mode": "random", "universe": 64, "len": p["rand_len"],
                          "count": p["rand_count"] // nshards + 1, "seed": seed ^ (shard_no * 7919 + 1)}),
@@ -34,6 +35,10 @@ def shard(shard_no, nshards, seed, tier, extra):
             ("vm-rand", {"op": "ds", "target": "vmap", "mode": "random", "universe": 64, "len": p["rand_len"],
                          "count": p["rand_count"] // nshards + 1, "seed": seed ^ (shard_no * 31337 + 2)}),
         ]
+        if p["ds_len"] > 4:
+            # ... and, in the thorough tier, up to length 5 over the one-tag payloads only (37 instead of 49 operations)
+            reqs.append(("ds-exh-long", {"op": "ds", "target": "ds", "mode": "exhaustive", "universe": 4, "len": p["ds_len"],
+                                         "extended": False, "shard": shard_no, "shards": nshards}))
         if shard_no == 0:
             reqs.append(("vm-exh", {"op": "ds", "target": "vmap", "mode": "exhaustive", "universe": 4,
                                     "len": p["vm_len"]}))
